@@ -1,12 +1,14 @@
 /-
-SHA-256 (FIPS 180-4), core Lean only.  Used ONLY by the `namekey` driver so that the model's
-pre-image can be compared with the bytes the real `types.GetNameKeyPrefix` returns
-(`0x03 ‖ sha256(pre-image)`).  No theorem mentions this file: in `PvProofs.C15` the hash is an
-abstract function parameter whose injectivity is a hypothesis.
+SHA-256 (FIPS 180-4), executable, core Lean only.
+
+Used ONLY by line-protocol drivers to instantiate the abstract hash parameter of a model
+(e.g. `PvModel.MdAddr`: record-name hash).  No theorem depends on this file: every theorem
+quantifies over an arbitrary hash function.  The correspondence run compares its output with
+Go's `crypto/sha256` on every generated name.
 -/
 namespace PvModel.Sha256
 
-def K : Array UInt32 := #[
+private def k : Array UInt32 := #[
   0x428a2f98, 0x71374491, 0xb5c0fbcf, 0xe9b5dba5, 0x3956c25b, 0x59f111f1, 0x923f82a4, 0xab1c5ed5,
   0xd807aa98, 0x12835b01, 0x243185be, 0x550c7dc3, 0x72be5d74, 0x80deb1fe, 0x9bdc06a7, 0xc19bf174,
   0xe49b69c1, 0xefbe4786, 0x0fc19dc6, 0x240ca1cc, 0x2de92c6f, 0x4a7484aa, 0x5cb0a9dc, 0x76f988da,
@@ -16,54 +18,69 @@ def K : Array UInt32 := #[
   0x19a4c116, 0x1e376c08, 0x2748774c, 0x34b0bcb5, 0x391c0cb3, 0x4ed8aa4a, 0x5b9cca4f, 0x682e6ff3,
   0x748f82ee, 0x78a5636f, 0x84c87814, 0x8cc70208, 0x90befffa, 0xa4506ceb, 0xbef9a3f7, 0xc67178f2]
 
-def H0 : Array UInt32 := #[
-  0x6a09e667, 0xbb67ae85, 0x3c6ef372, 0xa54ff53a, 0x510e527f, 0x9b05688c, 0x1f83d9ab, 0x5be0cd19]
+private def rotr (x : UInt32) (n : UInt32) : UInt32 := (x >>> n) ||| (x <<< (32 - n))
 
-@[inline] def rotr (x : UInt32) (n : UInt32) : UInt32 := (x >>> n) ||| (x <<< (32 - n))
+private def pad (msg : ByteArray) : ByteArray := Id.run do
+  let bitLen : UInt64 := msg.size.toUInt64 * 8
+  let mut out := msg.push 0x80
+  while out.size % 64 ≠ 56 do
+    out := out.push 0
+  for i in [0:8] do
+    out := out.push ((bitLen >>> (8 * (7 - i)).toUInt64).toUInt8)
+  return out
 
-/-- message ‖ 0x80 ‖ zeros ‖ 64-bit big-endian bit length; a multiple of 64 bytes. -/
-def pad (msg : List UInt8) : Array UInt8 :=
-  let n := msg.length
-  let a := (msg.toArray).push 0x80
-  let z := (64 - ((n + 1 + 8) % 64)) % 64
-  let a := a ++ Array.replicate z (0 : UInt8)
-  let bits := n * 8
-  (List.range 8).foldl (fun a i => a.push (UInt8.ofNat ((bits >>> (8 * (7 - i))) % 256))) a
+private def word (b : ByteArray) (i : Nat) : UInt32 :=
+  (b.get! i).toUInt32 <<< 24 ||| (b.get! (i+1)).toUInt32 <<< 16 |||
+  (b.get! (i+2)).toUInt32 <<< 8 ||| (b.get! (i+3)).toUInt32
 
-def word (a : Array UInt8) (i : Nat) : UInt32 :=
-  ((a[i]!).toUInt32 <<< 24) ||| ((a[i+1]!).toUInt32 <<< 16) ||| ((a[i+2]!).toUInt32 <<< 8) ||| (a[i+3]!).toUInt32
-
-def schedule (a : Array UInt8) (off : Nat) : Array UInt32 :=
-  let w : Array UInt32 := (List.range 16).foldl (fun w i => w.push (word a (off + 4 * i))) #[]
-  (List.range 48).foldl (fun w j =>
-    let i := j + 16
-    let w15 := w[i - 15]!
-    let w2 := w[i - 2]!
+private def compress (h : Array UInt32) (blk : ByteArray) (off : Nat) : Array UInt32 := Id.run do
+  let mut w : Array UInt32 := Array.replicate 64 0
+  for t in [0:16] do
+    w := w.set! t (word blk (off + 4 * t))
+  for t in [16:64] do
+    let w15 := w[t-15]!
+    let w2 := w[t-2]!
     let s0 := rotr w15 7 ^^^ rotr w15 18 ^^^ (w15 >>> 3)
     let s1 := rotr w2 17 ^^^ rotr w2 19 ^^^ (w2 >>> 10)
-    w.push (w[i - 16]! + s0 + w[i - 7]! + s1)) w
-
-def compress (h : Array UInt32) (w : Array UInt32) : Array UInt32 :=
-  let init := (h[0]!, h[1]!, h[2]!, h[3]!, h[4]!, h[5]!, h[6]!, h[7]!)
-  let (a, b, c, d, e, f, g, hh) := (List.range 64).foldl (fun (a, b, c, d, e, f, g, hh) i =>
-    let s1 := rotr e 6 ^^^ rotr e 11 ^^^ rotr e 25
+    w := w.set! t (w[t-16]! + s0 + w[t-7]! + s1)
+  let mut a := h[0]!
+  let mut b := h[1]!
+  let mut c := h[2]!
+  let mut d := h[3]!
+  let mut e := h[4]!
+  let mut f := h[5]!
+  let mut g := h[6]!
+  let mut hh := h[7]!
+  for t in [0:64] do
+    let S1 := rotr e 6 ^^^ rotr e 11 ^^^ rotr e 25
     let ch := (e &&& f) ^^^ ((~~~ e) &&& g)
-    let t1 := hh + s1 + ch + K[i]! + w[i]!
-    let s0 := rotr a 2 ^^^ rotr a 13 ^^^ rotr a 22
+    let t1 := hh + S1 + ch + k[t]! + w[t]!
+    let S0 := rotr a 2 ^^^ rotr a 13 ^^^ rotr a 22
     let maj := (a &&& b) ^^^ (a &&& c) ^^^ (b &&& c)
-    let t2 := s0 + maj
-    (t1 + t2, a, b, c, d + t1, e, f, g)) init
-  #[h[0]! + a, h[1]! + b, h[2]! + c, h[3]! + d, h[4]! + e, h[5]! + f, h[6]! + g, h[7]! + hh]
+    let t2 := S0 + maj
+    hh := g
+    g := f
+    f := e
+    e := d + t1
+    d := c
+    c := b
+    b := a
+    a := t1 + t2
+  return #[h[0]! + a, h[1]! + b, h[2]! + c, h[3]! + d, h[4]! + e, h[5]! + f, h[6]! + g, h[7]! + hh]
 
-def hash (msg : List UInt8) : List UInt8 :=
+/-- SHA-256 of a byte string, as 32 bytes. -/
+def sum256 (msg : ByteArray) : List UInt8 := Id.run do
   let p := pad msg
-  let h := (List.range (p.size / 64)).foldl (fun h blk => compress h (schedule p (64 * blk))) H0
-  h.toList.flatMap fun (x : UInt32) =>
-    [(x >>> 24).toUInt8, (x >>> 16).toUInt8, (x >>> 8).toUInt8, x.toUInt8]
+  let mut h : Array UInt32 := #[0x6a09e667, 0xbb67ae85, 0x3c6ef372, 0xa54ff53a,
+                                 0x510e527f, 0x9b05688c, 0x1f83d9ab, 0x5be0cd19]
+  for i in [0:p.size / 64] do
+    h := compress h p (64 * i)
+  let mut out : List UInt8 := []
+  for x in h.toList.reverse do
+    out := (x >>> 24).toUInt8 :: (x >>> 16).toUInt8 :: (x >>> 8).toUInt8 :: x.toUInt8 :: out
+  return out
 
-def hexDigit (n : Nat) : Char := if n < 10 then Char.ofNat (48 + n) else Char.ofNat (87 + n)
-
-def hex (bs : List UInt8) : String :=
-  String.ofList (bs.flatMap fun b => [hexDigit (b.toNat / 16), hexDigit (b.toNat % 16)])
+/-- SHA-256 of the UTF-8 bytes of a string. -/
+def sumString (s : String) : List UInt8 := sum256 s.toUTF8
 
 end PvModel.Sha256
